@@ -133,6 +133,18 @@ func norm(v any) any {
 		return int64(t)
 	case gen.String:
 		return string(t)
+	case *kmap:
+		out := map[string]any{}
+		for k, e := range t.m {
+			out[k] = norm(e)
+		}
+		return out
+	case *ilist:
+		out := make([]any, len(t.s))
+		for i, e := range t.s {
+			out[i] = norm(e)
+		}
+		return out
 	}
 	rv := reflect.ValueOf(v)
 	switch rv.Kind() {
@@ -616,9 +628,6 @@ func produceAlias(r *lib.Rng) {
 		for _, sh := range shapes {
 			doc := fmt.Sprintf(sh.doc, l, l)
 			for _, last := range aliasLast {
-				if sh.path == "$[*]" && last.kind == 'n' {
-					continue // both members selected and Nth.remove works in place: which one is met first decides (map order)
-				}
 				for _, genData := range []bool{false, true} {
 					for _, one := range []bool{false, true} {
 						if one && sh.path == "$[*]" {
@@ -872,6 +881,171 @@ func produceTyped(r *lib.Rng) {
 	}
 }
 
+// ---- coll: user collections (jp.Keyed / jp.Indexed / jp.RemovableIndexed) -----------------------------------------
+
+// kmap is a map behind the jp.Keyed interface
+type kmap struct{ m map[string]any }
+
+func (k *kmap) ValueForKey(key string) (any, bool) { v, has := k.m[key]; return v, has }
+func (k *kmap) SetValueForKey(key string, v any)   { k.m[key] = v }
+func (k *kmap) RemoveValueForKey(key string)       { delete(k.m, key) }
+func (k *kmap) Keys() []string {
+	keys := make([]string, 0, len(k.m))
+	for key := range k.m {
+		keys = append(keys, key)
+	}
+	sort.Strings(keys)
+	return keys
+}
+
+// ilist is a list behind the jp.RemovableIndexed interface
+type ilist struct{ s []any }
+
+func (l *ilist) ValueAtIndex(i int) any {
+	if i < 0 || len(l.s) <= i {
+		return nil
+	}
+	return l.s[i]
+}
+func (l *ilist) SetValueAtIndex(i int, v any) {
+	if 0 <= i && i < len(l.s) {
+		l.s[i] = v
+	}
+}
+func (l *ilist) Size() int { return len(l.s) }
+func (l *ilist) RemoveValueAtIndex(i int) {
+	if 0 <= i && i < len(l.s) {
+		ns := make([]any, 0, len(l.s)-1)
+		ns = append(ns, l.s[:i]...)
+		l.s = append(ns, l.s[i+1:]...)
+	}
+}
+
+// the document with its maps behind Keyed and its lists behind RemovableIndexed — all of them ("all"), only the maps ("maps"),
+// only the lists ("lists"), or all but the root ("inner"): a wrapped member of a plain container and a plain member of a
+// wrapped one go through other arms than a uniformly wrapped document
+func collDoc(v any, mode string, root bool) any {
+	wrapMap := mode == "all" || mode == "maps" || (mode == "inner" && !root)
+	wrapList := mode == "all" || mode == "lists" || (mode == "inner" && !root)
+	switch t := v.(type) {
+	case map[string]any:
+		m := map[string]any{}
+		for k, e := range t {
+			m[k] = collDoc(e, mode, false)
+		}
+		if wrapMap {
+			return &kmap{m}
+		}
+		return m
+	case []any:
+		s := make([]any, len(t))
+		for i, e := range t {
+			s[i] = collDoc(e, mode, false)
+		}
+		if wrapList {
+			return &ilist{s}
+		}
+		return s
+	}
+	return v
+}
+
+func endsInSliceOrFilter(p string) bool {
+	if strings.HasSuffix(p, ")]") {
+		return true
+	}
+	i := strings.LastIndex(p, "[")
+	return i >= 0 && strings.HasSuffix(p, "]") && strings.Contains(p[i:], ":")
+}
+
+func (c *xcase) runColl() {
+	simple := xcall(c.Op, c.One, c.Path, parseDoc(c.Doc), c.Arg, false)
+	mode := c.Shape
+	if mode == "" {
+		mode = "all"
+	}
+	cd := collDoc(parseDoc(c.Doc), mode, true)
+	before := canonOf(cd)
+	impl := xcall(c.Op, c.One, c.Path, cd, c.Arg, false)
+	rep.AddEval(2, 1)
+	rep.Count("extra.coll."+mode+"."+c.Op, 1)
+	if impl.kind == simple.kind && impl.after == simple.after {
+		return
+	}
+	extra := map[string]any{"impl": impl.String(), "expected": simple.String()}
+	if impl.kind == "panic" {
+		c.finding("violation", "coll-panic", "panic on user collections: "+impl.msg, "", extra)
+		return
+	}
+	if c.One && impl.kind == "ok" && simple.kind == "ok" && impl.after != before && oneCandidates(c)[impl.after] {
+		rep.Count("extra.coll.one_other_location", 1)
+		return
+	}
+	// RemoveOne whose last fragment is a name, on Keyed parents: Child.remove does not report `changed` for a Keyed, so the One
+	// form does not stop: known only if the result is exactly what Remove (all matches) leaves.
+	if c.Op == "rem" && c.One && impl.kind == "ok" && lib.HasKnown(knownList, keyedRemoveOneID) && lastIsName(c.Path) {
+		all := xcall("rem", false, c.Path, parseDoc(c.Doc), c.Arg, false)
+		if all.kind == "ok" && all.after == impl.after {
+			rep.Count("known."+keyedRemoveOneID, 1)
+			c.finding("known", "coll-removeone-all", "RemoveOne with a name as last fragment on Keyed collections removes the member from EVERY selected parent (Child.remove never reports a change for a Keyed)", keyedRemoveOneID, extra)
+			return
+		}
+	}
+	// Modify / ModifyOne with a filter as last fragment on a Keyed collection: modify.go has no arm for it, nothing happens.
+	// Known only if the document is exactly as before.
+	if c.Op == "mod" && strings.HasSuffix(c.Path, ")]") && impl.kind == "ok" && impl.after == before && lib.HasKnown(knownList, keyedFilterID) {
+		rep.Count("known."+keyedFilterID, 1)
+		c.finding("known", "coll-filter-untouched", "Modify with a filter as last fragment leaves a Keyed collection untouched (no arm for Keyed in modify.go's Filter case)", keyedFilterID, extra)
+		return
+	}
+	c.finding("violation", "coll", "user collections (jp.Keyed / jp.RemovableIndexed): the outcome differs from the outcome of the same call on the simple document", "", extra)
+}
+
+const keyedRemoveOneID = "C13-removeone-keyed-all"
+const keyedFilterID = "C13-modify-filter-keyed-untouched"
+
+// the path ends in a name (`.x`), not in a bracket
+func lastIsName(p string) bool {
+	return !strings.HasSuffix(p, "]") && strings.Contains(p, ".")
+}
+
+func produceColl(r *lib.Rng) {
+	type cd struct {
+		doc   string
+		paths []string
+	}
+	listLast := []string{"[0]", "[1]", "[-1]", "[5]", "[0,-1]", "[-2,-1]", "[1:]", "[0:1]", "[::2]", "[-2:]", "[*]", "[?(@ < 3)]", "[?(@ > 1)]"}
+	var docs []cd
+	for _, l := range []string{`[1,2,3,4]`, `[2]`, `[]`, `[3,1,2,1,3]`} {
+		d := cd{doc: fmt.Sprintf(`{"a":%s,"b":%s}`, l, l)}
+		for _, last := range listLast {
+			d.paths = append(d.paths, "$.a"+last, "$[*]"+last)
+		}
+		docs = append(docs, d)
+	}
+	docs = append(docs,
+		cd{`{"a":[{"v":1},{"v":2},{"v":3}],"b":[{"v":1}]}`, []string{"$.a[*].v", "$.a[0].v", "$.a[-1].v", "$.a[0,-1].v", "$.a[1:].v", "$.a[?(@.v == 1)].v", "$.a[?(@.v > 1)]", "$.a[?(@.v > 1)].w", "$..v", "$..[0]", "$.a[*]['v','w']", "$.a[1]", "$.a[*]"}},
+		cd{`{"a":{"x":1,"y":2,"z":3},"b":{"x":1}}`, []string{"$.a.x", "$.a.q", "$.a['x','z']", "$.a[*]", "$.a[?(@ > 1)]", "$.a[?(@ == 1)]", "$[*].x", "$..x", "$.b", "$.c.d", "$.c[1]"}},
+		cd{`{"a":{"l":[1,2,3]},"b":{"l":[1,2,3]}}`, []string{"$.a.l[1:]", "$.a.l[0]", "$.a.l[*]", "$[*].l[0]", "$..l[-1]", "$.a.l[?(@ > 1)]", "$.a.m.n"}},
+	)
+	for _, d := range docs {
+		for _, p := range d.paths {
+			for _, one := range []bool{false, true} {
+				for _, m := range []struct{ op, arg string }{{"rem", ""}, {"del", ""}, {"mod", "N"}, {"mod", "I"}, {"mod", "C"}, {"set", "9"}} {
+					if (m.op == "set" || m.op == "del") && endsInSliceOrFilter(p) {
+						continue // Set/Del refuse a path that ends in a slice or a filter
+					}
+					for _, mode := range []string{"all", "maps", "lists", "inner"} {
+						c := xcase{Stream: "coll", Op: m.op, One: one, Path: p, Doc: d.doc, Shape: mode, Arg: m.arg}
+						c.runColl()
+					}
+				}
+			}
+		}
+	}
+	_ = r
+}
+
 // ---- entry points -------------------------------------------------------------------------------------------------
 
 func extraStreams() {
@@ -879,6 +1053,7 @@ func extraStreams() {
 	produceSelfref(r.Fork(1))
 	produceAlias(r.Fork(2))
 	produceTyped(r.Fork(3))
+	produceColl(r.Fork(4))
 }
 
 // replay of a finding of these streams; false: the file holds no such case
@@ -921,6 +1096,8 @@ func replayExtra(m map[string]any) bool {
 		c.runAlias(kind)
 	case "typed":
 		c.runTyped(!strings.HasPrefix(c.Path, "$.a"))
+	case "coll":
+		c.runColl()
 	}
 	return true
 }
